@@ -6,6 +6,7 @@
 From Coq Require Import Reals List ZArith Permutation Lra Floats QArith.
 From Sdfx Require Import Num.Ops Num.RInst Geo.Vec Geo.Box Geo.BoxR Sdf.Poly Sdf.PolyR Sdf.PolyTreeR Sdf.PolyClipR.
 From Sdfx Require Import Num.FInst Num.QInst Sdf.C04Corr.
+From Sdfx Require Import Generated.SdfExpr Sdf.GenEqPoly Sdf.GenEqPolyR.
 Import ListNotations.
 Open Scope R_scope.
 
@@ -236,3 +237,28 @@ Proof.
   unfold good, square, owned, own1, ex_box, ex_A, ex_B, nondeg; cbn [b2min b2max fst snd vx vy].
   repeat split; try lra; try (intros [? ?]; lra); repeat (apply Forall_cons || apply Forall_nil); cbn [fst snd vx vy]; lra.
 Qed.
+
+(* ---- The tie to the Go source for the per-segment functions.  Generated/SdfExpr.v is re-translated
+   from the Go AST of the current source tree on every run (harness/sdfgen); the definitions
+   generated from newLineInfo, lineInfo.winding and lineInfo.minDistance2 are equal to the model
+   functions theorems (1) and (2) are about, for all segments and points (Sdf/GenEqPoly.v, by
+   conversion).  A semantic edit of one of these Go functions breaks an obligation below.  (The
+   quadtree walk and the clipping stay tied by differential execution incl. the rebuilt tree.) *)
+Theorem C04_go_winding_is_model : forall (a : @LineInfo ROps) (p : V2 ROps),
+  @sdf_lineInfo_winding ROps (li_a a, li_b a) (li_u a) p = winding a p.
+Proof. exact (@lineInfo_winding_eq ROps). Qed.
+Print Assumptions C04_go_winding_is_model.
+
+Theorem C04_go_minDistance2_is_model : forall (l : Seg ROps) (p : V2 ROps),
+  let a := li_of (@sdf_newLineInfo ROps l) in
+  @sdf_lineInfo_minDistance2 ROps (li_a a, li_b a) (li_u a) (li_len a) p = min_distance2 (new_line_info l) p.
+Proof. exact go_minDistance2_is_model. Qed.
+Print Assumptions C04_go_minDistance2_is_model.
+
+(* hence, about the translated code itself: winding computed from what newLineInfo stores is the
+   crossing-number increment of the specification *)
+Theorem C04_go_winding_is_spec : forall (l : Seg ROps) (p : V2 ROps),
+  let a := li_of (@sdf_newLineInfo ROps l) in
+  @sdf_lineInfo_winding ROps (li_a a, li_b a) (li_u a) p = cross_spec l p.
+Proof. exact go_winding_is_spec. Qed.
+Print Assumptions C04_go_winding_is_spec.
